@@ -203,6 +203,15 @@ func (l *modLayout) trail() string {
 	return ""
 }
 
+// csep separates a token or parenthesis from the end-of-line comment behind it: usually a
+// space, now and then nothing at all (`)// c`, `v1.2.3// indirect`).
+func (l *modLayout) csep(o ModOpts) string {
+	if !o.Plain && l.r.IntN(6) == 0 {
+		return ""
+	}
+	return " "
+}
+
 func newModLayout(r *rand.Rand) *modLayout {
 	l := &modLayout{r: r}
 	switch r.IntN(8) {
@@ -381,6 +390,7 @@ type ModOpts struct {
 	Unknown      int  // number of unknown directives / blocks to insert (strict parsers then reject the file)
 	MaxStmts     int  // upper bound on generated directives per verb family (default 4)
 	Plain        bool // canonical `go mod` style layout: single spaces, tabs in blocks, LF, no redundant quotes
+	GoVersions   []string // when set, the go directive's argument is drawn from this list
 }
 
 // ModReq etc. are the directive values a ModDoc was rendered from. Version fields hold the
@@ -731,9 +741,9 @@ func (d *ModDoc) renderStmts(l *modLayout, o ModOpts, verb string, items []modIt
 			}
 			sb.WriteString(l.trailP(o))
 			if it.suffix != "" {
-				sb.WriteString(" " + it.suffix)
+				sb.WriteString(l.csep(o) + it.suffix)
 			} else if cm() {
-				sb.WriteString(" " + ModComment(r))
+				sb.WriteString(l.csep(o) + ModComment(r))
 			}
 			sb.WriteString(l.nl())
 			chunks = append(chunks, ModChunk{Text: sb.String(), Verb: verb})
@@ -751,7 +761,7 @@ func (d *ModDoc) renderStmts(l *modLayout, o ModOpts, verb string, items []modIt
 			// empty block on one line
 			sb.WriteString(verb + Pick(r, []string{" ( )", " ()", "()"}))
 			if cm() {
-				sb.WriteString(" " + ModComment(r))
+				sb.WriteString(l.csep(o) + ModComment(r))
 			}
 			sb.WriteString(l.nl())
 			chunks = append(chunks, ModChunk{Text: sb.String(), Verb: verb, Block: true})
@@ -762,7 +772,7 @@ func (d *ModDoc) renderStmts(l *modLayout, o ModOpts, verb string, items []modIt
 		}
 		sb.WriteString(l.indentP(o, false) + verb + l.wsP(o) + "(" + l.trailP(o))
 		if cm() {
-			sb.WriteString(" " + ModComment(r))
+			sb.WriteString(l.csep(o) + ModComment(r))
 		}
 		sb.WriteString(l.nl())
 		for k := 0; k < n; k++ {
@@ -780,9 +790,9 @@ func (d *ModDoc) renderStmts(l *modLayout, o ModOpts, verb string, items []modIt
 			}
 			sb.WriteString(l.indentP(o, true) + join(it.toks) + l.trailP(o))
 			if it.suffix != "" {
-				sb.WriteString(" " + it.suffix)
+				sb.WriteString(l.csep(o) + it.suffix)
 			} else if cm() {
-				sb.WriteString(" " + ModComment(r))
+				sb.WriteString(l.csep(o) + ModComment(r))
 			}
 			sb.WriteString(l.nl())
 		}
@@ -794,7 +804,7 @@ func (d *ModDoc) renderStmts(l *modLayout, o ModOpts, verb string, items []modIt
 		}
 		sb.WriteString(l.indentP(o, false) + ")" + l.trailP(o))
 		if cm() {
-			sb.WriteString(" " + ModComment(r))
+			sb.WriteString(l.csep(o) + ModComment(r))
 		}
 		sb.WriteString(l.nl())
 		chunks = append(chunks, ModChunk{Text: sb.String(), Verb: verb, Block: true})
@@ -871,6 +881,9 @@ func (d *ModDoc) goToolchain(l *modLayout, o ModOpts) []ModChunk {
 	var chunks []ModChunk
 	if r.IntN(5) > 0 {
 		d.Go = Pick(r, []string{"1.21", "1.21.0", "1.9", "1.22rc1", "1.21.13", "2.0", "1.23.0", "1.100"})
+		if len(o.GoVersions) > 0 {
+			d.Go = Pick(r, o.GoVersions)
+		}
 		chunks = append(chunks, d.renderStmts(l, o, "go", []modItem{{toks: []string{d.Go}}}, false)...)
 	}
 	if r.IntN(3) == 0 {
